@@ -68,7 +68,11 @@ def direct_case(ctx, i, rng):
         # history: the same pose objects, modified in place, must behave like fresh poses with the new values
         for X in (A, B):
             new, _ = gen.pose(rng, k, maxexp)
-            X[:] = M.fl(M.mkpose(k, new))
+            vals_new = np.array(M.fl(M.mkpose(k, new)))
+            if rng.random() < 0.5:
+                X[:] = vals_new
+            else:
+                np.copyto(np.asarray(X), vals_new)  # a write that does not go through the pose object's own __setitem__
         ctx.count("class:operands_modified_in_place")
         relations(ctx, k, A, B, C, rng, maxexp, {"kind": k, "after_inplace_modification": True})
     if nontriv:
